@@ -266,6 +266,15 @@ func solveOne(ob *Obligation, cfg SolverCfg) {
 		st, out, secs := runSolver(solvers[0], fname, 3*time.Second)
 		ob.Seconds = secs
 		ob.Output = fmt.Sprintf("[%s: %s in %.2fs] %s", solvers[0].name, st, secs, firstLines(out, 3))
+		if st != "unsat" && st != "sat" {
+			// cvc5 refutes inconsistent quantified assumptions that z3 times out on (log item 19)
+			st2, out2, secs2 := runSolver(solvers[1], fname, 3*time.Second)
+			ob.Seconds += secs2
+			ob.Output += fmt.Sprintf("\n[%s: %s in %.2fs] %s", solvers[1].name, st2, secs2, firstLines(out2, 3))
+			if st2 == "unsat" || st2 == "sat" {
+				st = st2
+			}
+		}
 		if st != "unsat" && st != "sat" && ob.Group == "" && cfg.Thorough {
 			// second opinion with a different seed and the older z3
 			for _, alt := range []solver{{"z3-new/seed1", func(ms int, f string) []string {
